@@ -82,14 +82,17 @@ theorem resolveE_mono {T T' : Tab} (h : Ext T T') : ∀ (e : SExpr) (ce : CExpr)
             rw [h.1 t v hl, h.2 (t, m) fid hm, ihr r' hr, iha a' ha]
             simpa [hl, hm, hr, ha] using hc
 
-theorem resolveS_mono {T T' : Tab} (h : Ext T T') (s : SStmt) (cs : CStmt)
-    (hc : resolveS T s = some cs) : resolveS T' s = some cs := by
-  cases s with
+theorem resolveS_mono {T T' : Tab} (h : Ext T T') : ∀ (s : SStmt) (cs : CStmt),
+    resolveS T s = some cs → resolveS T' s = some cs := by
+  intro s
+  induction s with
   | print tag e =>
+    intro cs hc
     simp only [resolveS, Option.map_eq_some_iff] at hc ⊢
     obtain ⟨e', he, rfl⟩ := hc
     exact ⟨e', resolveE_mono h e e' he, rfl⟩
   | set x e =>
+    intro cs hc
     simp only [resolveS] at hc ⊢
     cases hl : lookup x T.syms with
     | none => simp [hl] at hc
@@ -100,9 +103,14 @@ theorem resolveS_mono {T T' : Tab} (h : Ext T T') (s : SStmt) (cs : CStmt)
         rw [h.1 x v hl, resolveE_mono h e e' he]
         simpa [hl, he] using hc
   | eval e =>
+    intro cs hc
     simp only [resolveS, Option.map_eq_some_iff] at hc ⊢
     obtain ⟨e', he, rfl⟩ := hc
     exact ⟨e', resolveE_mono h e e' he, rfl⟩
+  | lit s ih =>
+    intro cs hc
+    simp only [resolveS] at hc ⊢
+    exact ih cs hc
 
 theorem resolveSs_mono {T T' : Tab} (h : Ext T T') : ∀ (ss : List SStmt) (cs : List CStmt),
     resolveSs T ss = some cs → resolveSs T' ss = some cs := by
@@ -316,14 +324,17 @@ theorem resolveE_closed {nf nv : Nat} {T : Tab} (h : TabBelow nf nv T) : ∀ (e 
             subst hc
             simp [closedE, ihr r' hr, iha a' ha, this]
 
-theorem resolveS_closed {nf nv : Nat} {T : Tab} (h : TabBelow nf nv T) (s : SStmt) (cs : CStmt)
-    (hc : resolveS T s = some cs) : closedS nf nv cs = true := by
-  cases s with
+theorem resolveS_closed {nf nv : Nat} {T : Tab} (h : TabBelow nf nv T) : ∀ (s : SStmt) (cs : CStmt),
+    resolveS T s = some cs → closedS nf nv cs = true := by
+  intro s
+  induction s with
   | print tag e =>
+    intro cs hc
     simp only [resolveS, Option.map_eq_some_iff] at hc
     obtain ⟨e', he, rfl⟩ := hc
     exact resolveE_closed h e e' he
   | set x e =>
+    intro cs hc
     simp only [resolveS] at hc
     cases hl : lookup x T.syms with
     | none => simp [hl] at hc
@@ -337,9 +348,14 @@ theorem resolveS_closed {nf nv : Nat} {T : Tab} (h : TabBelow nf nv T) (s : SStm
         simp only [SymOk] at this
         simp [closedS, resolveE_closed h e e' he, this]
   | eval e =>
+    intro cs hc
     simp only [resolveS, Option.map_eq_some_iff] at hc
     obtain ⟨e', he, rfl⟩ := hc
     exact resolveE_closed h e e' he
+  | lit s ih =>
+    intro cs hc
+    simp only [resolveS] at hc
+    exact ih cs hc
 
 theorem resolveSs_closed {nf nv : Nat} {T : Tab} (h : TabBelow nf nv T) : ∀ (ss : List SStmt) (cs : List CStmt),
     resolveSs T ss = some cs → cs.all (closedS nf nv) = true := by
